@@ -142,6 +142,7 @@ var specC02Laws = Register(&Spec[Triple]{
 })
 
 func TestC02_Laws(t *testing.T) {
+	longVersions = true
 	specC02Laws.Run(t, genTriple, 80000, 400000)
 }
 
@@ -298,5 +299,6 @@ var specC02Sort = Register(&Spec[SortCase]{
 })
 
 func TestC02_Sort(t *testing.T) {
+	longVersions = true
 	specC02Sort.Run(t, genSortCase, 10000, 60000)
 }
